@@ -10,10 +10,12 @@ Representation: a stored ref element `x < p` represents `toZ x = x·R⁻¹ ∈ Z
 Only lemmas from SqiProofs are used here; this file contains the property statements.
 -/
 import SqiProofs.GfRefExp
+import SqiProofs.GfRefFp2
+import SqiProofs.GfFp2Batch
 import SqiProofs.Primes
 
 namespace SqiProps.C07
-open SqiModel.Gf SqiProofs.GfRef SqiProofs.GfMont
+open SqiModel.Gf SqiProofs.GfRef SqiProofs.GfMont SqiProofs.GfFp2
 
 /-! ## The three parameter sets are valid, and their moduli are the (proved) primes -/
 
@@ -165,5 +167,123 @@ end
     evaluates as the theorems say (kernel evaluation of the level-1 model) -/
 example : IsLevel lvl1 ∧ (5 : Nat) < lvl1.p ∧ Ref.fp_is_square lvl1 0 = 0 ∧
     Ref.fp_mul lvl1 (Ref.fp_inv lvl1 5) 5 = Ref.fp_set_one lvl1 := ⟨.l1, by decide +kernel, by decide +kernel, by decide +kernel⟩
+
+/-! ## GF(p²): `fp2.c` as coded, over ANY back-end whose `fp_*` layer refines `ZMod p`
+
+`FpRefines O p dom val` (SqiProofs.GfFp2) says: every `fp_*` operation of the record `O` maps the
+representation domain `dom` to itself and commutes with the abstraction `val : α → ZMod p` (with the
+back-end-specific behaviour of `fp_is_square` at 0 left open). It is proved for the ref back-end below
+(`ref_backend_refines`) and for the x86 back-end in the x86 section. `CF p = (ZMod p)[i]/(i²+1)`
+(Mathlib `QuadraticAlgebra (ZMod p) (-1) 0`); `val2 x = val x.re + i·val x.im`. -/
+
+/-- the ref back-end at the three levels satisfies the interface -/
+theorem ref_backend_refines {P : RefParams} (hL : IsLevel P) :
+    have := hL.prime
+    FpRefines (Ref.ops P) P.p (fun a => a < P.p) (toZ P) := by
+  have := hL.prime
+  exact ref_refines hL.valid
+
+/-- `fp2_mul` (Karatsuba, 3 multiplications) is multiplication in `R[i]/(i²+1)` over any commutative ring -/
+theorem fp2_mul_commRing {R : Type} [CommRing R] (O : FpOps R) (hadd : ∀ a b, O.add a b = a + b)
+    (hsub : ∀ a b, O.sub a b = a - b) (hmul : ∀ a b, O.mul a b = a * b) (y z : Fp2 R) :
+    ((⟨(fp2_mul O y z).re, (fp2_mul O y z).im⟩ : QuadraticAlgebra R (-1) 0)) =
+      (⟨y.re, y.im⟩ : QuadraticAlgebra R (-1) 0) * ⟨z.re, z.im⟩ :=
+  SqiProofs.GfFp2.fp2_mul_commRing O hadd hsub hmul y z
+
+theorem fp2_sqr_commRing {R : Type} [CommRing R] (O : FpOps R) (hadd : ∀ a b, O.add a b = a + b)
+    (hsub : ∀ a b, O.sub a b = a - b) (hmul : ∀ a b, O.mul a b = a * b) (y : Fp2 R) :
+    ((⟨(fp2_sqr O y).re, (fp2_sqr O y).im⟩ : QuadraticAlgebra R (-1) 0)) =
+      (⟨y.re, y.im⟩ : QuadraticAlgebra R (-1) 0) * ⟨y.re, y.im⟩ :=
+  SqiProofs.GfFp2.fp2_sqr_commRing O hadd hsub hmul y
+
+section fp2
+variable {p : Nat} [Fact p.Prime] {α : Type} {O : FpOps α} {dom : α → Prop} {val : α → ZMod p}
+variable (h : FpRefines O p dom val)
+include h
+
+theorem fp2_add_spec {x y : Fp2 α} (hx : dom2 dom x) (hy : dom2 dom y) :
+    dom2 dom (fp2_add O x y) ∧ val2 val (fp2_add O x y) = val2 val x + val2 val y :=
+  SqiProofs.GfFp2.fp2_add_spec h hx hy
+theorem fp2_sub_spec {x y : Fp2 α} (hx : dom2 dom x) (hy : dom2 dom y) :
+    dom2 dom (fp2_sub O x y) ∧ val2 val (fp2_sub O x y) = val2 val x - val2 val y :=
+  SqiProofs.GfFp2.fp2_sub_spec h hx hy
+theorem fp2_neg_spec {x : Fp2 α} (hx : dom2 dom x) :
+    dom2 dom (fp2_neg O x) ∧ val2 val (fp2_neg O x) = - val2 val x :=
+  SqiProofs.GfFp2.fp2_neg_spec h hx
+theorem fp2_mul_spec {x y : Fp2 α} (hx : dom2 dom x) (hy : dom2 dom y) :
+    dom2 dom (fp2_mul O x y) ∧ val2 val (fp2_mul O x y) = val2 val x * val2 val y :=
+  SqiProofs.GfFp2.fp2_mul_spec h hx hy
+theorem fp2_sqr_spec {x : Fp2 α} (hx : dom2 dom x) :
+    dom2 dom (fp2_sqr O x) ∧ val2 val (fp2_sqr O x) = val2 val x * val2 val x :=
+  SqiProofs.GfFp2.fp2_sqr_spec h hx
+theorem fp2_half_spec {x : Fp2 α} (hx : dom2 dom x) :
+    dom2 dom (fp2_half O x) ∧ val2 val (fp2_half O x) * 2 = val2 val x :=
+  SqiProofs.GfFp2.fp2_half_spec h hx
+theorem fp2_set_small_spec (v : Nat) (hv : v < 2 ^ 32) :
+    dom2 dom (fp2_set_small O v) ∧ val2 val (fp2_set_small O v) = (v : CF p) :=
+  SqiProofs.GfFp2.fp2_set_small_spec h v hv
+
+/-- inversion: 0 ↦ 0 and `x ≠ 0 → inv x · x = 1` -/
+theorem fp2_inv_spec {x : Fp2 α} (hx : dom2 dom x) :
+    dom2 dom (fp2_inv O x) ∧ (val2 val x = 0 → val2 val (fp2_inv O x) = 0) ∧
+    (val2 val x ≠ 0 → val2 val (fp2_inv O x) * val2 val x = 1) :=
+  SqiProofs.GfFp2.fp2_inv_spec h hx
+
+/- FULL STATEMENT of the property: `fp2_is_square x = 0xFFFFFFFF ↔ IsSquare (val2 x)` for every x
+   (0 included). It depends on the back-end's `fp_is_square` at 0: false for the ref back-end (see
+   `fp2_is_square_zero_counterexample`), true for x86 (`fp2_is_square_spec_full`). -/
+theorem fp2_is_square_spec_partial {x : Fp2 α} (hx : dom2 dom x) (hne : val2 val x ≠ 0) :
+    (fp2_is_square O x = T32 ↔ IsSquare (val2 val x)) ∧ (fp2_is_square O x = 0 ∨ fp2_is_square O x = T32) :=
+  SqiProofs.GfFp2.fp2_is_square_spec_partial h hx hne
+
+theorem fp2_is_square_spec_full (hz : ∀ {a}, dom a → val a = 0 → O.isSquare a = T32)
+    {x : Fp2 α} (hx : dom2 dom x) : fp2_is_square O x = T32 ↔ IsSquare (val2 val x) :=
+  SqiProofs.GfFp2.fp2_is_square_spec_full h hz hx
+
+/-- the squareness test of `Fp[i]` is the norm criterion (mathematical content of `fp2_is_square`) -/
+theorem isSquare_iff_norm (z : CF p) : IsSquare z ↔ IsSquare (z.re * z.re + z.im * z.im) :=
+  SqiProofs.GfFp2.isSquare_iff_norm h.p4 z
+
+/-- complex square root, all four branch combinations (`im = 0` × `y0² square`) and sign management:
+    the result is in the documented normalisation (even real part; real part 0 ⇒ even imaginary part)
+    and squares to `x` whenever `x` is a square -/
+theorem fp2_sqrt_spec {x : Fp2 α} (hx : dom2 dom x) :
+    dom2 dom (fp2_sqrt O x) ∧
+    ((val (fp2_sqrt O x).re).val % 2 = 0 ∧ (val (fp2_sqrt O x).re = 0 → (val (fp2_sqrt O x).im).val % 2 = 0)) ∧
+    (IsSquare (val2 val x) → val2 val (fp2_sqrt O x) * val2 val (fp2_sqrt O x) = val2 val x) :=
+  SqiProofs.GfFp2.fp2_sqrt_spec h hx
+
+/- FULL STATEMENT of the property: "batched inversion equals element-wise inversion" on every batch.
+   False when an entry is zero (`fp2_batched_inv_zero_counterexample`); proved for every length when
+   all entries are non-zero: -/
+theorem fp2_batched_inv_spec_partial (xs : List (Fp2 α)) (hd : ∀ x ∈ xs, dom2 dom x) (hnz : ∀ x ∈ xs, val2 val x ≠ 0) :
+    List.Forall₂ (fun out x => dom2 dom out ∧ val2 val out * val2 val x = 1) (fp2_batched_inv O xs) xs :=
+  SqiProofs.GfFp2.fp2_batched_inv_spec h xs hd hnz
+
+theorem fp2_pow_vartime_spec (x : Fp2 α) (hx : dom2 dom x) (ws : List Nat) (hw : ∀ w ∈ ws, w < 2 ^ 64) :
+    dom2 dom (fp2_pow_vartime O x ws) ∧ val2 val (fp2_pow_vartime O x ws) = val2 val x ^ evalWords ws :=
+  SqiProofs.GfFp2.fp2_pow_vartime_spec h x hx ws hw
+
+end fp2
+
+set_option maxRecDepth 100000 in
+/-- counterexample (ref back-end, each level): `fp2_is_square(0)` is false although `0 = 0²` -/
+theorem fp2_is_square_zero_counterexample :
+    fp2_is_square (Ref.ops lvl1) ⟨0, 0⟩ = 0 ∧ fp2_is_square (Ref.ops lvl3) ⟨0, 0⟩ = 0 ∧
+    fp2_is_square (Ref.ops lvl5) ⟨0, 0⟩ = 0 := by decide +kernel
+
+set_option maxRecDepth 100000 in
+/-- counterexample: a batch `[1, 0]` comes back as `[0, 0]`, but element-wise inversion (with the
+    library's own convention `inv 0 = 0`) gives `[1, 0]` -/
+theorem fp2_batched_inv_zero_counterexample :
+    fp2_batched_inv (Ref.ops lvl1) [⟨Ref.fp_set_one lvl1, 0⟩, ⟨0, 0⟩] = [⟨0, 0⟩, ⟨0, 0⟩] ∧
+    [fp2_inv (Ref.ops lvl1) ⟨Ref.fp_set_one lvl1, 0⟩, fp2_inv (Ref.ops lvl1) ⟨0, 0⟩] = [⟨Ref.fp_set_one lvl1, 0⟩, ⟨0, 0⟩] := by
+  decide +kernel
+
+/-- non-vacuity of the GF(p²) hypotheses: the ref record at level 1 satisfies `FpRefines`, a concrete
+    non-zero element lies in its domain, and the model inverts it -/
+example : dom2 (fun a => a < lvl1.p) (⟨3, 4⟩ : Fp2 Nat) ∧
+    fp2_mul (Ref.ops lvl1) (fp2_inv (Ref.ops lvl1) ⟨3, 4⟩) ⟨3, 4⟩ = ⟨Ref.fp_set_one lvl1, 0⟩ := by
+  refine ⟨⟨by decide +kernel, by decide +kernel⟩, by decide +kernel⟩
 
 end SqiProps.C07
